@@ -573,7 +573,8 @@ class AttributeCollection(MutableMapping[int, Attribute]):
         if len2 < len4:
             as_seq = as2path.as_seq
         else:
-            as_seq = as2path.as_seq[:-len4]
+            # keep the leading AS numbers AS4_PATH does not cover ([:-len4] is empty when len4 is 0)
+            as_seq = as2path.as_seq[: len2 - len4]
             as_seq.extend(as4path.as_seq)
 
         len2 = len(as2path.as_set)
@@ -582,7 +583,7 @@ class AttributeCollection(MutableMapping[int, Attribute]):
         if len2 < len4:
             as_set = as4path.as_set
         else:
-            as_set = as2path.as_set[:-len4]
+            as_set = as2path.as_set[: len2 - len4]
             as_set.extend(as4path.as_set)
 
         # Build segments from merged ASN lists
@@ -591,7 +592,8 @@ class AttributeCollection(MutableMapping[int, Attribute]):
             segments.append(SEQUENCE(as_seq))
         if as_set:
             segments.append(SET(as_set))
-        aspath = AS2Path.make_aspath(segments)
+        # the merged path holds the 4-byte AS numbers of AS4_PATH: it can only be stored in 4-byte form
+        aspath = AS2Path.make_aspath(segments, asn4=True)
         self.add(aspath, key)
 
     def __hash__(self) -> int:
